@@ -100,8 +100,14 @@ namespace
         default: r.has_value() = f; m.second = f; break;
         }
     }
+#ifdef SQ_FLAG_BLOCK
+    // flags kept in a bitset of a narrow block type
+    template <size_t N> using Arr = xtl::xoptional_array<T, N, xtl::xdynamic_bitset<SQ_FLAG_BLOCK>>;
+    using Vec = xtl::xoptional_vector<T, std::allocator<T>, xtl::xdynamic_bitset<SQ_FLAG_BLOCK>>;
+#else
     template <size_t N> using Arr = xtl::xoptional_array<T, N>;
     using Vec = xtl::xoptional_vector<T>;
+#endif
 #else
     using Second = T;
     using Elem = std::pair<T, T>;
@@ -205,6 +211,7 @@ namespace
         bool construct_size_other(C* p, size_t n, T a, T, bool f, Model& m)
         {
             if (f) { xtl::xoptional<T, bool> o(a, true); m.assign(n, Elem(a, true)); return xcall([&] { new (p) C(n, o); }); }
+            if (n % 2) { xtl::xoptional<T, bool> mv(a, false); m.assign(n, Elem(a, false)); return xcall([&] { new (p) C(n, mv); }); }   // a missing optional still carries its value
             auto miss = xtl::missing<T>(); m.assign(n, Elem(T(), false)); return xcall([&] { new (p) C(n, miss); });
         }
         bool construct_ilist(C* p, T a, T, Model& m, std::false_type) { m.assign(is_vector ? 3 : FIXED, Elem(a, true)); return xcall([&] { new (p) C(is_vector ? 3 : FIXED, a); }); }
@@ -368,6 +375,7 @@ namespace
             if (v == 0) { m.resize(n, fresh_elem()); return xcall([&] { c.resize(n); }); }
             if (v == 1) { m.resize(n, Elem(a, true)); return xcall([&] { c.resize(n, a); }); }
             if (f) { xtl::xoptional<T, bool> o(a, true); m.resize(n, Elem(a, true)); return xcall([&] { c.resize(n, o); }); }
+            if (n % 2) { xtl::xoptional<T, bool> mv(a, false); m.resize(n, Elem(a, false)); return xcall([&] { c.resize(n, mv); }); }   // a missing optional still carries its value
             auto miss = xtl::missing<T>(); m.resize(n, Elem(T(), false)); return xcall([&] { c.resize(n, miss); });
         }
 #else
@@ -618,6 +626,8 @@ namespace
 #define SQ_STR(x) SQ_STR2(x)
 #ifdef SQ_THROWING
 #define SQ_CFG(name, ...) RegisterCfg reg_##name(std::string(family_name) + "_" #name "_throwing_elements", gen_throwing, exec<__VA_ARGS__>, 1, false)
+#elif defined(SQ_FLAG_BLOCK)
+#define SQ_CFG(name, ...) RegisterCfg reg_##name(std::string(family_name) + "_" #name "_" SQ_STR(SQ_T) "_flags_in_" SQ_STR(SQ_FLAG_BLOCK), gen, exec<__VA_ARGS__>, 1, false)
 #else
 #define SQ_CFG(name, ...) RegisterCfg reg_##name(std::string(family_name) + "_" #name "_" SQ_STR(SQ_T), gen, exec<__VA_ARGS__>, 1, false)
 #endif
